@@ -534,3 +534,29 @@ SPEC.update({
     'i2c_read': dict(kind='read', args=lambda r: i2c_args(r, data=False), req=i2c_req(data=None), res=lambda a, d: bytes(d)),
     'i2c_write': dict(kind='write', args=lambda r: i2c_args(r, count=False), req=i2c_req(count=0), res=lambda a, d: None),
 })
+
+
+def comp_prop_res(a, d):
+    sel, data = a['property_id'], d[1:]
+    cls = ['ComponentPropertyGeneral', 'ComponentPropertyCurrentVersion', 'ComponentPropertyDescriptionString',
+           'ComponentPropertyRollbackVersion', 'ComponentPropertyDeferredVersion'][sel]
+    if not data:
+        return obj(cls)
+    if sel == 0:
+        cap = data[0]
+        g = [['rollback_backup_not_supported', 'rollback_is_supported', 'rollback_is_supported', 'reserved'][cap & 3]]
+        g += [n for i, n in ((2, 'prepartion'), (3, 'comparison'), (4, 'deferred_activation'), (5, 'payload_cold_reset_required'))
+              if cap >> i & 1]
+        return obj(cls, general=g)
+    if sel == 2:
+        return obj(cls, description=''.join(chr(x) for x in data if x))
+    if len(data) < 2:
+        return 'KeyError'
+    if data[1] != 0xff and data[1] > 0x99:
+        return 'DecodingError'
+    return obj(cls, version=obj('VersionField', major=data[0], minor=bcd_minor(data[1])))
+
+
+SPEC['get_component_property'] = dict(
+    kind='read', args=lambda r: {'component_id': r.choice([0, 1, 7]), 'property_id': r.randrange(5)},
+    req=lambda a: (0x2c, 0x2f, 0, P(a['component_id'], a['property_id'])), res=comp_prop_res)
